@@ -65,6 +65,7 @@ func init() {
 //   slide      A=[wait, key, offMs(0 clears)]
 //   del        A=[wait, key]
 //   add        A=[wait, idx, expOffMs, grp]
+//   capadd     A=[wait, idx, grp, seedState, capMax]  (cap-bearing PatchTreasures that creates the record from a seed body)
 func genC11(seed uint64, tier string, prop string) Case {
 	r := newRng(seed, "c11"+prop)
 	c := Case{Prop: prop, Seed: seed, Cfg: map[string]int64{}}
@@ -118,7 +119,7 @@ func genC11(seed uint64, tier string, prop string) Case {
 	filt := func() (int64, int64) {
 		fs, fg := int64(-1), int64(-1)
 		if r.chance(1, 2) {
-			fs = int64(r.pick(4, 1, 1))
+			fs = int64(r.pick(4, 1, 1, 2, 1))
 		}
 		if r.chance(1, 3) {
 			fg = int64(r.intn(2))
@@ -133,7 +134,12 @@ func genC11(seed uint64, tier string, prop string) Case {
 		for j := 0; j < nops; j++ {
 			var op Op
 			if prop == "C12" {
-				switch r.pick(4, 4, 1, 2, 1, 1, 1) {
+				switch r.pick(4, 4, 1, 2, 1, 1, 1, 2) {
+				case 7:
+					addIdx++
+					op = Op{C: cl, K: "capadd", A: []int64{wait(), 100 + addIdx, int64(r.intn(2)), int64(r.pick(1, 2)), capMax}}
+					c.Ops = append(c.Ops, op)
+					continue
 				case 0:
 					fs, fg := filt()
 					if fs == 1 {
@@ -263,18 +269,49 @@ func c11decode(raw []byte) (b c11body, err error) {
 	return
 }
 
+// c11stateOK tells whether a state satisfies the state part of a filter: fs -1 none, 0..2 one state,
+// 3 = OR(state==idle, state==busy) (an all-indexable OR group), 4 = state STRING_IN [idle busy]
+func c11stateOK(fs int64, state string) bool {
+	switch {
+	case fs < 0:
+		return true
+	case fs <= 2:
+		return state == c11States[fs]
+	}
+	return state == "idle" || state == "busy"
+}
+
 func c11filter(fs, fg, legOrder int64) *hydrapb.FilterGroup {
 	if fs < 0 && fg < 0 {
 		return nil
 	}
-	var legs []*hydrapb.TreasureFilter
-	if fs >= 0 {
-		p := "state"
-		legs = append(legs, &hydrapb.TreasureFilter{BytesFieldPath: &p, Operator: hydrapb.Relational_EQUAL, CompareValue: &hydrapb.TreasureFilter_StringVal{StringVal: c11States[fs]}})
+	sp, gp := "state", "grp"
+	stateLeg := func(st string) *hydrapb.TreasureFilter {
+		return &hydrapb.TreasureFilter{BytesFieldPath: &sp, Operator: hydrapb.Relational_EQUAL, CompareValue: &hydrapb.TreasureFilter_StringVal{StringVal: st}}
 	}
+	var grpLeg *hydrapb.TreasureFilter
 	if fg >= 0 {
-		p := "grp"
-		legs = append(legs, &hydrapb.TreasureFilter{BytesFieldPath: &p, Operator: hydrapb.Relational_EQUAL, CompareValue: &hydrapb.TreasureFilter_Int64Val{Int64Val: fg}})
+		grpLeg = &hydrapb.TreasureFilter{BytesFieldPath: &gp, Operator: hydrapb.Relational_EQUAL, CompareValue: &hydrapb.TreasureFilter_Int64Val{Int64Val: fg}}
+	}
+	if fs == 3 {
+		or := &hydrapb.FilterGroup{Logic: hydrapb.FilterLogic_OR, Filters: []*hydrapb.TreasureFilter{stateLeg("idle"), stateLeg("busy")}}
+		if legOrder == 1 {
+			or.Filters[0], or.Filters[1] = or.Filters[1], or.Filters[0]
+		}
+		if grpLeg == nil {
+			return or
+		}
+		return &hydrapb.FilterGroup{Logic: hydrapb.FilterLogic_AND, Filters: []*hydrapb.TreasureFilter{grpLeg}, SubGroups: []*hydrapb.FilterGroup{or}}
+	}
+	var legs []*hydrapb.TreasureFilter
+	switch {
+	case fs == 4:
+		legs = append(legs, &hydrapb.TreasureFilter{BytesFieldPath: &sp, Operator: hydrapb.Relational_STRING_IN, StringInVals: []string{"idle", "busy"}})
+	case fs >= 0:
+		legs = append(legs, stateLeg(c11States[fs]))
+	}
+	if grpLeg != nil {
+		legs = append(legs, grpLeg)
 	}
 	if legOrder == 1 && len(legs) == 2 {
 		legs[0], legs[1] = legs[1], legs[0]
@@ -553,6 +590,35 @@ func runC11(t *testing.T, c Case) (res Result) {
 							}
 							delete(model, k)
 						}
+					case "capadd":
+						k := c11key(op.A[1])
+						o.keys = []string{k}
+						st := c11States[op.A[3]]
+						var resp *hydrapb.PatchTreasuresResponse
+						cli.call("PatchTreasures", func() {
+							resp, o.err = srv.gw.PatchTreasures(ctxBg, &hydrapb.PatchTreasuresRequest{IslandID: 1, SwampName: swamp, CreateIfNotExist: true,
+								InitialMsgpackOnCreate: mp(map[string]any{"grp": op.A[2], "state": st, "ver": o.id}), Cap: c11cap(op.A[4]),
+								Patches: []*hydrapb.TreasurePatch{{Key: k, Ops: []*hydrapb.PatchOp{{Op: hydrapb.PatchOp_SET, Path: "owner", Value: mp(o.id)}}}}})
+						})
+						for _, r := range resp.GetResults() {
+							o.got = append(o.got, c11got{key: r.Key, status: r.Status})
+						}
+						o.capHit = resp.GetCapReached()
+						created := len(o.got) == 1 && o.got[0].status == hydrapb.PatchResult_CREATED
+						o.acked = created
+						initial[k] = &c11model{grp: op.A[2], state: st}
+						if seq && o.err == nil {
+							want := hydrapb.PatchResult_CREATED
+							if op.A[4] > 0 && st == "claimed" && modelCount() >= op.A[4] {
+								want = hydrapb.PatchResult_CAP_EXCEEDED
+							}
+							if len(o.got) != 1 || o.got[0].status != want {
+								seqFail("PatchTreasures(create %s from a seed body with state=%s): answered %v, the model expects %v (claimed now %d, cap %d)", k, st, o.got, want, modelCount(), op.A[4])
+							} else if want == hydrapb.PatchResult_CREATED {
+								cp := *initial[k]
+								model[k] = &cp
+							}
+						}
 					case "add":
 						k := c11key(op.A[1])
 						o.keys = []string{k}
@@ -828,7 +894,7 @@ func runC11(t *testing.T, c Case) (res Result) {
 				}
 			case "shiftmatch":
 				fs, fg := o.op.A[4], o.op.A[5]
-				if (fs >= 0 && g.body.State != c11States[fs]) || (fg >= 0 && g.body.Grp != fg) {
+				if !c11stateOK(fs, g.body.State) || (fg >= 0 && g.body.Grp != fg) {
 					return fail(violation("claimed_record_fails_filter", "ShiftMatching(state=%d grp=%d legOrder=%d) returned %s with state=%s grp=%d", fs, fg, o.op.A[9], g.key, g.body.State, g.body.Grp))
 				}
 				if o.op.A[2] == 2 && g.exp == 0 {
@@ -978,7 +1044,7 @@ func runC11(t *testing.T, c Case) (res Result) {
 			_, present := f.recs[k]
 			added := false
 			for _, o := range ops {
-				if o.kind == "add" && o.keys[0] == k && !o.acked {
+				if (o.kind == "add" || o.kind == "capadd") && o.keys[0] == k && !o.acked {
 					added = true // creation not acknowledged: either way
 				}
 			}
@@ -1053,7 +1119,7 @@ func runC11(t *testing.T, c Case) (res Result) {
 				ix := initial[x]
 				// eligible during the whole run: expired from the start, matching the filter as set up, never taken;
 				// in a claimers-only case the only state change is idle/busy -> claimed by a patch-claim, which "takes" the record
-				if taken[x] || ix.exp == 0 || ix.exp >= startT.UnixNano() || (fs >= 0 && ix.state != c11States[fs]) || (fg >= 0 && ix.grp != fg) {
+				if taken[x] || ix.exp == 0 || ix.exp >= startT.UnixNano() || !c11stateOK(fs, ix.state) || (fg >= 0 && ix.grp != fg) {
 					continue
 				}
 				if lim == 0 || int64(len(o.got)) < lim {
@@ -1102,6 +1168,8 @@ func c11carriesCap(o *c11op) bool {
 		return o.op.A[4] > 0
 	case "setstate":
 		return o.op.A[3] > 0
+	case "capadd":
+		return o.op.A[4] > 0
 	case "shiftmatch":
 		return o.op.A[8] > 0
 	}
